@@ -69,6 +69,13 @@ Proof.
   apply Forall_forall. intros f Hf. apply in_map_iff in Hf. destruct Hf as (g & Hg & Hin). subst f.
   rewrite Forall_forall in Hb. specialize (Hb g Hin). unfold setid1. destruct (f_uid g =? u); exact Hb.
 Qed.
+Lemma minv_set_hdr : forall n m u h, minv n m -> minv n (m_set_hdr m u h).
+Proof.
+  intros n m u h [Hm [Hn Hb]]. unfold minv, memo_inv_m, uids_ok, m_set_hdr. cbn.
+  rewrite map_uid_sethdr. repeat split; [exact Hm | exact Hn |].
+  apply Forall_forall. intros f Hf. apply in_map_iff in Hf. destruct Hf as (g & Hg & Hin). subst f.
+  rewrite Forall_forall in Hb. specialize (Hb g Hin). unfold sethdr1. destruct (f_uid g =? u); exact Hb.
+Qed.
 Lemma minv_add_ecu : forall n m e, minv n m -> minv n (m_add_ecu m e).
 Proof.
   intros n m e [Hm Hu]. unfold m_add_ecu. destruct (existsb (Z.eqb e) (m_ecus m)); [split; assumption|].
@@ -185,6 +192,7 @@ Proof.
   - apply inv_on_mat; [|exact Hw]. intros m Hm. exact Hm.
   - apply inv_on_mat; [|exact Hw]. intros m Hm. exact Hm.
   - apply inv_on_mat; [|exact Hw]. intros m Hm. exact Hm.
+  - apply inv_on_mat; [|exact Hw]. intros m Hm. cbn. apply minv_set_hdr. exact Hm.
 Qed.
 
 Lemma memo_inv_run : forall ops w, memo_inv w -> memo_inv (run w ops).
